@@ -9,49 +9,49 @@ BASELINE = "cd /repo && /venv/bin/python -m pytest -ra -q -p no:cacheprovider --
 CHECKS = {
     "C01": dict(
         level="exploration",
-        text="Generated search (Hypothesis, 16 shards) over m x n instances up to cond 1e10 decided by per-instance optimality certificates: orthogonality / residual identity / SVD reference for variable projection; exact active-set enumeration (a feasible witness with smaller residual is a proof of non-optimality), KKT and residual identity for NNLS; plus the dispatch through optimize(). Exploration, not proof: it reports how many instances were tried and their cond/family histogram.",
+        text="Generated search (Hypothesis, 16 shards) over m x n instances up to cond 1e10 decided by per-instance optimality certificates: orthogonality / residual identity / SVD reference for variable projection; exact active-set enumeration (a feasible witness with smaller residual is a proof of non-optimality), KKT and residual identity for NNLS; plus the dispatch through optimize(). Exploration, not proof: it reports how many instances were tried and their cond/family histogram. Data vectors also as float32 / int64, the same array objects refilled in place between calls, dispatch with a dataset scale and per-index weights, and the Result returned after a contained fault (its clps / residuals must solve the linear problem of its own matrix).",
         note="Trusted: numpy SVD/lstsq as reference, float tolerances of 1e3-1e4 backward-error units. NNLS optimality outside the measured reliable region of the pinned scipy nnls is the known finding N1.",
         technique="property-based testing with optimality-certificate oracles (Hypothesis)",
         ref="DESIGN.md section 4 C01",
     ),
     "C02": dict(
         level="exploration",
-        text="Generated search (Hypothesis) over the scheme space of the statement, built from harness megacomplexes with closed-form columns; the penalty vector captured exactly as scipy receives it is compared at x0 and two further points with an independent reference objective written from the statement (per-index reduced, scaled, weighted least squares; stacked problems for linked groups; equal-area penalties), plus metamorphic independence of dataset groups, linked groups with clp_link_tolerance > 0 aligned by the C09 reference model, and a second optimizer on the same scheme object. Exploration: counts, feature histogram and samples are reported; nothing is proved.",
+        text="Generated search (Hypothesis) over the scheme space of the statement, built from harness megacomplexes with closed-form columns; the penalty vector captured exactly as scipy receives it is compared at x0 and two further points with an independent reference objective written from the statement (per-index reduced, scaled, weighted least squares; stacked problems for linked groups; equal-area penalties), plus metamorphic independence of dataset groups, linked groups with clp_link_tolerance > 0 aligned by the C09 reference model, and a second optimizer on the same scheme object. Exploration: counts, feature histogram and samples are reported; nothing is proved. Inputs are also varied in representation: float32 / int64 data, Fortran / strided / read-only arrays, integer and descending / shuffled global axes.",
         note="Trusted: the reference objective (vlib/oracle/refobjective.py), numpy lstsq, exhaustive active-set NNLS. Cases whose semantics the statement leaves open are discarded and counted.",
         technique="property-based testing against a reference model + metamorphic relation (Hypothesis)",
         ref="DESIGN.md section 4 C02",
     ),
     "C03": dict(
         level="exploration",
-        text="Generated search over the C02 scheme space with confusable dataset labels, square/non-square shapes, both storage orders and noisy data; every variable of every result dataset of optimize() is compared by label and coordinate with the identities of the statement and with the reference residual/clp blocks at the optimised parameters.",
+        text="Generated search over the C02 scheme space with confusable dataset labels, square/non-square shapes, both storage orders and noisy data; every variable of every result dataset of optimize() is compared by label and coordinate with the identities of the statement and with the reference residual/clp blocks at the optimised parameters. A reference-free identities sub-check runs on schemes whose interval bounds sit one ulp off axis values and whose linked axes are offset; datasets in other dtypes / layouts and on descending / shuffled / integer axes are generated.",
         note="Trusted: reference objective; tolerances 1e-12..1e-8 of the data scale for per-index cond <= 1e6.",
         technique="property-based testing against a reference model (Hypothesis)",
         ref="DESIGN.md section 4 C03",
     ),
     "C13": dict(
         level="exploration",
-        text="Generated search over optimisations of the C02 scheme space (all three methods, unused free parameters, non-negative parameters): each reported statistic is recomputed from the reported datasets, penalties and Jacobian, from the reference's counts, and from an independent re-evaluation of the objective at the optimised parameters.",
+        text="Generated search over optimisations of the C02 scheme space (all three methods, unused free parameters, non-negative parameters): each reported statistic is recomputed from the reported datasets, penalties and Jacobian, from the reference's counts, and from an independent re-evaluation of the objective at the optimised parameters. A second sub-check re-uses one Optimizer object (good run, contained failing run, create_result) and demands a self-consistent Result.",
         note="Trusted: reference objective for counts; covariance only compared when the Jacobian is clearly full rank or clearly rank deficient.",
         technique="property-based testing with recomputation oracles (Hypothesis)",
         ref="DESIGN.md section 4 C13",
     ),
     "C10": dict(
         level="exploration",
-        text="Hypothesis rule-based state machine over the captured objective (evaluate new / earlier / raising points, fresh optimizer, change numba thread count) with a history invariant (value at x is a function of x only) and deep snapshots of the caller's parameters, model and data after every step; optimize() twice per method; dataset matrices recomputed under several numba thread counts, a fresh-process matrix over NUMBA_NUM_THREADS. Thread schedules are only sampled - the harness cannot own numba's scheduler (stated limit).",
+        text="Hypothesis rule-based state machine over the captured objective (evaluate new / earlier / raising points, fresh optimizer, change numba thread count) with a history invariant (value at x is a function of x only) and deep snapshots of the caller's parameters, model and data after every step; optimize() twice per method; dataset matrices recomputed under several numba thread counts, a fresh-process matrix over NUMBA_NUM_THREADS. Thread schedules are only sampled - the harness cannot own numba's scheduler (stated limit). Further rules: a neighbouring vector (one coordinate moved by 1e-6..1e-10 relative) against a fresh optimizer, kinetic schemes on time axes in other units (parameter magnitudes 1e-8..1e5), descending / shuffled / integer axes.",
         note="Trusted: snapshot covers parameter dicts, model dict, data/weight/coordinate bytes. Bit-equality is counted; violation threshold 1e-12 relative.",
         technique="stateful property-based testing (Hypothesis RuleBasedStateMachine) + differential runs across processes/thread counts",
         ref="DESIGN.md section 4 C10",
     ),
     "C14": dict(
         level="exploration",
-        text="Generated built-in kinetic models (decay variants, IRF variants, oscillation, artifact, baseline, full-model spectra, 1-3 datasets with scales): simulate -> objective at the generating parameters is zero to rounding, clps equal generating clps / scale, the optimiser stays at the truth, recovers from <= 20 % perturbation when identifiable (gated by cond(J)), and seeded noise is reproducible.",
+        text="Generated built-in kinetic models (decay variants, IRF variants, oscillation, artifact, baseline, full-model spectra, 1-3 datasets with scales): simulate -> objective at the generating parameters is zero to rounding, clps equal generating clps / scale, the optimiser stays at the truth, recovers from <= 20 % perturbation when identifiable (gated by cond(J)), and seeded noise is reproducible. Also: an Optimizer re-run after a failed run equals a fresh one, numpy integer noise seeds, descending / shuffled / integer axes.",
         note="Conditioning / identifiability gates discard (and count) cases; tolerances scale with the measured conditioning.",
         technique="property-based round-trip (simulate -> fit) testing (Hypothesis)",
         ref="DESIGN.md section 4 C14",
     ),
     "C15": dict(
         level="fault_enumeration",
-        text="For each small scheme/method the fault-free run fixes the number N of model evaluations; a fault (exception object, NaN matrix, Inf matrix) is then injected at every k = 1..N, plus persistent region faults, for every method and verbose/raise_exception combination; oracle from the statement (exception identity, InitialParameterError iff nothing evaluated, Result from a parameter vector the harness megacomplex logged as evaluated without error, stdout identity, scheme snapshot); every kind of invalid scheme is rejected before any evaluation.",
+        text="For each small scheme/method the fault-free run fixes the number N of model evaluations; a fault (exception object, NaN matrix, Inf matrix) is then injected at every k = 1..N, plus persistent region faults, for every method and verbose/raise_exception combination; oracle from the statement (exception identity, InitialParameterError iff nothing evaluated, Result from a parameter vector the harness megacomplex logged as evaluated without error, stdout identity, scheme snapshot); every kind of invalid scheme is rejected before any evaluation. Error texts without message, with several lines and with a leading line break are injected as well.",
         note="Fault position is enumerated exhaustively per scheme; the schemes themselves are a small fixed family (4 variants x seeds). Known finding D15 (create_result unprotected) is listed in known_findings.json.",
         technique="exhaustive fault-position enumeration with a logging harness megacomplex",
         ref="DESIGN.md section 4 C15",
@@ -65,14 +65,14 @@ CHECKS = {
     ),
     "C05": dict(
         level="exploration",
-        text="Hypothesis-generated rates, widths, times (log-spaced, uniform and clustered around the numerical branch switch), 1-3 Gaussians with the documented broadcast patterns, normalise on/off, per-index shifts and centre/width dispersion in both dispersion variables; each decay column obtained through the public calculate_matrix path is compared with a 60-digit mpmath closed form (itself self-checked against quadrature of the defining convolution), per index with the documented effective centre/width and with an index-independent twin model; result variables of a one-evaluation optimize() are checked too.",
+        text="Hypothesis-generated rates, widths, times (log-spaced, uniform and clustered around the numerical branch switch), 1-3 Gaussians with the documented broadcast patterns, normalise on/off, per-index shifts and centre/width dispersion in both dispersion variables; each decay column obtained through the public calculate_matrix path is compared with a 60-digit mpmath closed form (itself self-checked against quadrature of the defining convolution), per index with the documented effective centre/width and with an index-independent twin model; result variables of a one-evaluation optimize() are checked too. Time axes also descending / shuffled, integer global axes, and every evaluation repeated after a refused one.",
         note="Tolerance 1e-11 relative + 1e-13 of the column maximum, plus the first-order effect of the unavoidable rounding of the effective centre/width. Rate order / A-matrix taken from the megacomplex (C04's subject).",
         technique="property-based testing against a high-precision (mpmath) reference + metamorphic twin models",
         ref="DESIGN.md section 4 C05",
     ),
     "C04": dict(
         level="exploration",
-        text="Hypothesis-generated compartmental schemes (1-5 compartments, chains / trees / reversible chains / parallel / rings with real spectrum, 1-3 combined K-matrices with overridden entries, shuffled declaration order, any initial distribution with/without exclude_from_normalize, arbitrary time axes): the decay, decay-sequential and decay-parallel matrices are compared with exp(Kt)j evaluated by mpmath.expm at 50 digits from a K assembled by the oracle itself; differential sequential/parallel vs general, conservation for closed systems, and the reported rates / lifetimes / A-matrix / DAS / K-matrix of a one-evaluation optimize().",
+        text="Hypothesis-generated compartmental schemes (1-5 compartments, chains / trees / reversible chains / parallel / rings with real spectrum, 1-3 combined K-matrices with overridden entries, shuffled declaration order, any initial distribution with/without exclude_from_normalize, arbitrary time axes): the decay, decay-sequential and decay-parallel matrices are compared with exp(Kt)j evaluated by mpmath.expm at 50 digits from a K assembled by the oracle itself; differential sequential/parallel vs general, conservation for closed systems, and the reported rates / lifetimes / A-matrix / DAS / K-matrix of a one-evaluation optimize(). The time axis is also handed over descending / shuffled / strided / read-only, and every evaluation is repeated after a refused one (bit-identical).",
         note="Tolerance 100 eps cond(V) (1+|K|t)|j| per time point; cases with relative eigenvalue gap < 1e-2, complex eigenvalues, cond(V) > 1e6 or |K|t > 1e7 are discarded and counted.",
         technique="property-based testing against a high-precision (mpmath expm) reference + differential testing",
         ref="DESIGN.md section 4 C04",
